@@ -48,8 +48,357 @@ def run(chk, tier):
             chk.ok("R20.4", w)
         else:
             chk.bad("R20.4", w, "grammar node %s has no IntoSqlBuilder impl" % w, "")
+    # ------------------------------------------------------------------ translation tables by symbolic execution
+    import symex, semtables
+    chk.rule("R20.5", "node -> builder tables: every binary node becomes (lhs, SQL token of the same operator, rhs); ternary (condition, true, false); unary (operator run, operand); "
+                      "parentheses are kept; list elements stay in source order; member chains wrap the object built so far; type constructors become casts of their one argument")
+    chk.rule("R20.6", "builder -> text: every format prints its operands in field order (left, operator, right / value, type / callee, arguments / object, field / array, index); collections in stored order")
+    chk.rule("R20.7", "grouping: an operand that is followed by a tighter-binding postfix (`::type`, `[index]`, `(args)`) and not preceded by an opening delimiter goes through the guard that "
+                      "parenthesises compound text, and every builder printing `operand operator operand` without a delimiter of its own declares itself compound")
+    GR = "rscel::compiler::grammar::"
+    TR = "rscel_to_sql::traits::"
+
+    def variant_names(adt_name):
+        a = F.adts.get(GR + adt_name)
+        return [v["name"] for v in a["variants"]] if a else []
+
+    def field_names(adt_path, variant):
+        a = F.adts.get(adt_path)
+        if not a:
+            return []
+        for v in a["variants"]:
+            if v["name"] == variant:
+                return [f["name"] for f in v["fields"]]
+        return []
+
+    class NodePolicy(semtables.LogicPolicy):
+        max_paths = 6000
+
+        def __init__(self, root):
+            super().__init__()
+            self.root = root
+
+        def stub(self, interp, st, path, c, args, t, caller):
+            if path.endswith(">::into_sql_builder") and path != self.root:
+                return [(st, ("call", "child", tuple(args), "R"))]
+            return None
+
+    def node_rows(name):
+        b = F.body(P % name, "rscel-to-sql")
+        it = symex.Interp(F, NodePolicy(b.path))
+        rows = []
+        for st, r in it.run(b, [symex.U("n", b.local_ty(1))]):
+            rr = symex.render(symex.deep(st, r))
+            if rr.startswith("Result::Err("):
+                continue
+            rows.append((st, rr))
+        return b, rows
+
+    def sel(st, place):
+        for c in st.cond:
+            if c[0] == "variant" and c[3] == place:
+                return c[2]
+        return None
+
+    def fld(expr, adt_name, variant):
+        """child(n.<variant>.<k>...) -> field name k of that variant"""
+        m_ = re.match(r"^child\(n\.%s\.(\d+)(?:\.0)*\)\.Ok\.0$" % variant, expr)
+        if not m_:
+            return None
+        names = field_names(GR + adt_name, variant)
+        k = int(m_.group(1))
+        return names[k] if k < len(names) else None
+    SQLTOK = {"Le": "<=", "Lt": "<", "Ge": ">=", "Gt": ">", "Eq": "=", "Ne": "<>", "In": "in", "Add": "+", "Sub": "-", "Mult": "*", "Div": "/", "Mod": "%"}
+    BIN = {"ConditionalOr": (None, "OR"), "ConditionalAnd": (None, "AND"), "Relation": ("Relop", None), "Addition": ("AddOp", None), "Multiplication": ("MultOp", None)}
+    BINRX = re.compile(r"^Result::Ok\(BinaryOperationBuilder::BinaryOperationBuilder\((.+?), StaticSqlBuilder::boxed\('([^']*)'\), (.+?)\)\)$")
+    nrows = 0
+    for node, (opadt, fixed) in BIN.items():
+        b, rows = node_rows(node)
+        nrows += len(rows)
+        vnames = variant_names(node)
+        seen_ops = set()
+        for st, rr in rows:
+            v = sel(st, "n")
+            vname = vnames[v] if isinstance(v, int) and v < len(vnames) else v
+            if vname == "Unary":
+                if re.match(r"^child\(n\.Unary\.0(\.0)*\)$", rr):
+                    chk.ok("R20.5", "%s|Unary" % node)
+                else:
+                    chk.bad("R20.5", "%s|Unary" % node, "a %s without an operator must translate as its only operand; found %s" % (node, rr[:100]), b.file)
+                continue
+            m_ = BINRX.match(rr)
+            if not m_:
+                chk.bad("R20.5", "%s|%s" % (node, vname), "unexpected translation %s" % rr[:120], b.file)
+                continue
+            l_, tok, r_ = m_.groups()
+            if opadt:
+                oi = [c[2] for c in st.cond if c[0] == "variant" and re.match(r"^n\.Binary\.\d+(\.0)*$", str(c[3]))]
+                onames = variant_names(opadt)
+                oname = onames[oi[0]] if oi and isinstance(oi[0], int) and oi[0] < len(onames) else (oi[0] if oi else "?")
+                want = SQLTOK.get(oname)
+            else:
+                oname, want = node, fixed
+            seen_ops.add(oname)
+            key = "%s|%s" % (node, oname)
+            probs = []
+            if fld(l_, node, "Binary") != "lhs" or fld(r_, node, "Binary") != "rhs":
+                probs.append("operands (%s, %s) instead of (lhs, rhs)" % (fld(l_, node, "Binary") or l_[:40], fld(r_, node, "Binary") or r_[:40]))
+            if tok != want:
+                probs.append("operator %s is written as SQL `%s`, expected `%s`" % (oname, tok, want))
+            if probs:
+                chk.bad("R20.5", key, "; ".join(probs), b.file)
+            else:
+                chk.ok("R20.5", key, "(lhs) %s (rhs)" % tok)
+        for o in (variant_names(opadt) if opadt else [node]):
+            if o not in seen_ops:
+                chk.bad("R20.5", "%s|%s" % (node, o), "operator %s has no translation row" % o, b.file)
+    # ternary / match
+    b, rows = node_rows("Expr")
+    nrows += len(rows)
+    vn = variant_names("Expr")
+    for st, rr in rows:
+        v = sel(st, "n")
+        vname = vn[v] if isinstance(v, int) and v < len(vn) else v
+        if vname == "Ternary":
+            m_ = re.match(r"^Result::Ok\(TurnaryExpressionBuilder::TurnaryExpressionBuilder\((.+?), (.+?), (.+?)\)\)$", rr)
+            got = tuple(fld(x, "Expr", "Ternary") for x in m_.groups()) if m_ else None
+            want = tuple(field_names(TR + "TurnaryExpressionBuilder", "TurnaryExpressionBuilder"))
+            if got == ("condition", "true_clause", "false_clause") == want:
+                chk.ok("R20.5", "Expr|Ternary", got)
+            else:
+                chk.bad("R20.5", "Expr|Ternary", "the ternary's (condition, true, false) are translated into the builder's %s as %s" % (want, got or rr[:100]), b.file)
+        elif vname == "Match":
+            if "UnsupportedBuilder" in rr:
+                chk.ok("R20.5", "Expr|Match", "unsupported")
+            else:
+                chk.bad("R20.5", "Expr|Match", "match has no SQL translation and must be reported as unsupported: %s" % rr[:100], b.file)
+        elif vname == "Unary":
+            if re.match(r"^child\(n\.Unary\.0(\.0)*\)$", rr):
+                chk.ok("R20.5", "Expr|Unary")
+            else:
+                chk.bad("R20.5", "Expr|Unary", rr[:100], b.file)
+    # unary operators
+    b, rows = node_rows("Unary")
+    nrows += len(rows)
+    vn = variant_names("Unary")
+    for st, rr in rows:
+        v = sel(st, "n")
+        vname = vn[v] if isinstance(v, int) and v < len(vn) else v
+        if vname == "Member":
+            ok_ = bool(re.match(r"^child\(n\.Member\.0(\.0)*\)$", rr))
+            want_ = "its member"
+        else:
+            m_ = re.match(r"^Result::Ok\(UnaryOperationBuilder::UnaryOperationBuilder\((.+?), (.+?)\)\)$", rr)
+            got = tuple(fld(x, "Unary", vname) for x in m_.groups()) if m_ else None
+            opf = {"NotMember": "nots", "NegMember": "negs"}.get(vname)
+            ok_ = got == (opf, "member") and field_names(TR + "UnaryOperationBuilder", "UnaryOperationBuilder") == ["operator", "operand"]
+            want_ = "(operator = %s, operand = member)" % opf
+        if ok_:
+            chk.ok("R20.5", "Unary|%s" % vname)
+        else:
+            chk.bad("R20.5", "Unary|%s" % vname, "expected %s, found %s" % (want_, rr[:120]), b.file)
+    for node, ch in (("NotList", "!"), ("NegList", "-")):
+        b, rows = node_rows(node)
+        nrows += len(rows)
+        vn = variant_names(node)
+        for st, rr in rows:
+            v = sel(st, "n")
+            vname = vn[v] if isinstance(v, int) and v < len(vn) else v
+            if vname == "List":
+                ok_ = bool(re.match(r"^Result::Ok\(LiteralBuilder::LiteralBuilder\(must_use\(format\(Arguments::new_v1\(\['%s'\], \[Argument::new_display\(SqlBuilder::to_sql\(child\(n\.List\.0(\.0)*\)\.Ok\.0\)\.Ok\.0\)\]\)\)\)\)\)$" % re.escape(ch), rr))
+            else:
+                ok_ = rr in ("Result::Ok(LiteralBuilder::LiteralBuilder([]))", "Result::Ok(LiteralBuilder::LiteralBuilder(''))") or bool(re.match(r"^Result::Ok\(LiteralBuilder::LiteralBuilder\((String::new\(\)|\[\]|'')\)\)$", rr))
+            if ok_:
+                chk.ok("R20.5", "%s|%s" % (node, vname))
+            else:
+                chk.bad("R20.5", "%s|%s" % (node, vname), "a run of `%s` must translate to one `%s` per operator followed by the rest of the run: %s" % (ch, ch, rr[:160]), b.file)
+    # primary: parentheses kept, list elements in order
+    b, rows = node_rows("Primary")
+    nrows += len(rows)
+    vn = variant_names("Primary")
+    seen_p = set()
+    for st, rr in rows:
+        v = sel(st, "n")
+        vname = vn[v] if isinstance(v, int) and v < len(vn) else v
+        seen_p.add(vname)
+        if vname == "Parens":
+            ok_ = bool(re.match(r"^Result::Ok\(ParensBuilder::ParensBuilder\(child\(n\.Parens\.0(\.0)*\)\.Ok\.0\)\)$", rr))
+            why_ = "explicit parentheses must be kept around their expression"
+        elif vname == "ListConstruction":
+            ok_ = bool(re.match(r"^Result::Ok\(ArrayBuilder::ArrayBuilder\(\[\*map\(AstNode::node\(n\.ListConstruction\.0\)\.0\)\]\.Ok\.0\)\)$", rr))
+            why_ = "list elements must be translated in stored (source) order, one builder per element"
+        elif vname in ("Ident", "Literal"):
+            ok_ = bool(re.match(r"^child\(n\.%s\.0(\.0)*\)$" % vname, rr))
+            why_ = "passes through"
+        elif vname == "ObjectInit":
+            ok_ = bool(re.match(r"^child\(AstNode::node\(n\.ObjectInit\.0\)\)$", rr)) or bool(re.match(r"^child\(n\.ObjectInit\.0(\.0)*\)$", rr))
+            why_ = "passes through"
+        else:
+            ok_ = "UnsupportedBuilder" in rr
+            why_ = "constructs without a translation are reported as unsupported"
+        if ok_:
+            chk.ok("R20.5", "Primary|%s" % vname)
+        else:
+            chk.bad("R20.5", "Primary|%s" % vname, "%s: %s" % (why_, rr[:160]), b.file)
+    for need in ("Parens", "ListConstruction", "Ident", "Literal"):
+        if need not in seen_p:
+            chk.bad("R20.5", "Primary|%s" % need, "no translation row for Primary::%s" % need, b.file)
+    # member chains and casts
+    b, rows = node_rows("Member")
+    nrows += len(rows)
+    mp = variant_names("MemberPrime")
+    CASTS = {"int": "integer", "uint": "bigint", "float": "double precision", "double": "double precision", "string": "text", "bool": "boolean",
+             "bytes": "bytea", "timestamp": "timestamp", "duration": "interval"}
+    ARGS = r"\[\*rev\(\[\*map\(AstNode::node\(AstNode::node\((?:\*n\.1|Index::index\(n\.1, 0\))\)\.Call\.0\)\.0\)\]\.Ok\.0\)\]"
+    seen_cast = {}
+    seen_m = set()
+    for st, rr in rows:
+        matched = [re.search(r", '(\w+)'\)$", c[1]).group(1) for c in st.cond if c[0] == "ne" and isinstance(c[1], str) and re.match(r"^PartialEq for str::eq\(AstNode::node\(n\.0\)\.Ident\.0\.0, '\w+'\)$", c[1])]
+        m_ = re.match(r"^Result::Ok\(CastBuilder::CastBuilder\((.+), StaticSqlBuilder::boxed\('([^']*)'\)\)\)$", rr)
+        if m_:
+            val, ty = m_.groups()
+            nm = matched[0] if matched else "?"
+            ok_val = val == "StaticSqlBuilder::boxed('NULL')" or bool(re.match(r"^Vec::remove\(%s, 0\)$" % ARGS, val))
+            if not ok_val:
+                chk.bad("R20.5", "cast|%s|value" % nm, "the cast's value must be the constructor's single argument: %s" % val[:120], b.file)
+            seen_cast.setdefault(nm, set()).add(ty)
+            continue
+        if re.match(r"^Result::Ok\(FunctionCallBuilder::FunctionCallBuilder\(child\(n\.0\)\.Ok\.0, %s\)\)$" % ARGS, rr):
+            seen_m.add("Call")
+        elif re.match(r"^Result::Ok\(JsonMemberAccessBuilder::JsonMemberAccessBuilder\(child\(n\.0\)\.Ok\.0, child\(AstNode::node\(AstNode::node\(\*n\.1\)\.MemberAccess\.0\)\)\.Ok\.0, Eq\(0, Sub\(Vec::len\(n\.1\), 1\)\)\)\)$", rr):
+            seen_m.add("MemberAccess")
+        elif re.match(r"^Result::Ok\(ArrayAccessBuilder::ArrayAccessBuilder\(child\(n\.0\)\.Ok\.0, child\(AstNode::node\(AstNode::node\(\*n\.1\)\.ArrayAccess\.0\)\)\.Ok\.0\)\)$", rr):
+            seen_m.add("ArrayAccess")
+        elif rr == "Result::Ok(child(n.0).Ok.0)":
+            seen_m.add("Empty")
+        else:
+            chk.bad("R20.5", "Member|unexpected", "unexpected member translation (object / callee must be the builder made so far, arguments reversed back to source order): %s" % rr[:200], b.file)
+    for k_ in ("Call", "MemberAccess", "ArrayAccess", "Empty"):
+        if k_ in seen_m:
+            chk.ok("R20.5", "Member|%s" % k_)
+        else:
+            chk.bad("R20.5", "Member|%s" % k_, "no translation row of the expected shape for member kind %s" % k_, b.file)
+    for nm, want in CASTS.items():
+        if seen_cast.get(nm) == {want}:
+            chk.ok("R20.5", "cast|%s" % nm, want)
+        else:
+            chk.bad("R20.5", "cast|%s" % nm, "type constructor %s(...) must become a cast to `%s`; found %s" % (nm, want, sorted(seen_cast.get(nm, []))), b.file)
+    for nm in set(seen_cast) - set(CASTS):
+        chk.bad("R20.5", "cast|%s" % nm, "unexpected cast row %s -> %s" % (nm, sorted(seen_cast[nm])), b.file)
+    chk.floor("R20.5", "translation rows extracted", nrows, 60)
+
+    # ---------------- builder -> text
+    class TextPolicy(semtables.LogicPolicy):
+        max_paths = 3000
+
+        def __init__(self, root):
+            super().__init__()
+            self.root = root
+
+        def stub(self, interp, st, path, c, args, t, caller):
+            if path.endswith("::to_sql") and path != self.root:
+                return [(st, ("call", "sql", tuple(args), "R"))]
+            return None
+    builders = sorted((b_ for b_ in F.bodies.values() if b_.pkg == "rscel-to-sql" and re.search(r"<rscel_to_sql::traits::(\w+) as rscel_to_sql::traits::SqlBuilder>::to_sql$", b_.path)), key=lambda b_: b_.path)
+    FMT = re.compile(r"^Result::Ok\(must_use\(format\(Arguments::new_v1\(\[(.*?)\], \[(.*)\]\)\)\)\)$")
+    OPEN, CLOSE = "([", ")]"
+    POSTFIX = ("::", "[", "(")
+    guards = set()
+    n_slots = 0
+    texts = {}
+    for b_ in builders:
+        bname = re.search(r"traits::(\w+) as", b_.path).group(1)
+        fields = field_names(TR + bname, bname)
+        it = symex.Interp(F, TextPolicy(b_.path))
+        for st, r in it.run(b_, [symex.U("s", b_.local_ty(1))]):
+            rr = symex.render(symex.deep(st, r))
+            if rr.startswith("Result::Err(") and "Unsupported" not in rr:
+                continue
+            m_ = FMT.match(rr)
+            if not m_:
+                texts.setdefault(bname, []).append((None, rr))
+                continue
+            pieces = [x[1:-1] for x in re.findall(r"'(?:[^'\\]|\\.)*'|\"(?:[^\"\\]|\\.)*\"", m_.group(1))]
+            args = re.findall(r"Argument::new_display\(((?:[^()]|\((?:[^()]|\((?:[^()]|\([^()]*\))*\))*\))*)\)", m_.group(2))
+            order = []
+            for k_, a_ in enumerate(args):
+                fm = re.search(r"s\.0\.0\.(\d+)", a_)
+                fname = fields[int(fm.group(1))] if fm and int(fm.group(1)) < len(fields) else "?"
+                order.append(fname)
+                n_slots += 1
+                before = pieces[k_] if k_ < len(pieces) else ""
+                after = pieces[k_ + 1] if k_ + 1 < len(pieces) else ""
+                helper = re.match(r"^(\w+)\(s\.0\.0\.\d+\)\.Ok\.0$", a_)
+                guarded = bool(helper) and helper.group(1) != "sql"
+                if guarded:
+                    guards.add(helper.group(1))
+                if after.startswith(POSTFIX):
+                    key = "%s.%s" % (bname, fname)
+                    if guarded:
+                        chk.ok("R20.7", key, "postfix `%s` - operand passes through %s" % (after[:2], helper.group(1)))
+                    else:
+                        chk.bad("R20.7", key, "%s prints `%s` directly before `%s` with no delimiter: when the operand is `(a) + (b)` or `(x)->>'f'` the postfix binds to its last operand only "
+                                              "(e.g. int(x + y) becomes (x) + (y)::integer)" % (bname, fname, after[:2]), b_.file)
+            texts.setdefault(bname, []).append((pieces, order))
+            want_order = [f for f in fields if f in order]
+            if order == want_order and "?" not in order:
+                chk.ok("R20.6", "%s|%s" % (bname, "/".join(pieces)[:40]), order)
+            else:
+                chk.bad("R20.6", "%s|operand order" % bname, "%s prints its operands in the order %s; its fields are %s" % (bname, order, fields), b_.file)
+            for a_ in args:
+                if re.search(r"\brev\(", a_):
+                    chk.bad("R20.6", "%s|collection order" % bname, "%s reverses a collection while printing it" % bname, b_.file)
+    chk.floor("R20.6", "operand slots printed by the builders", n_slots, 18)
+    # guard helpers have the shape: compound -> "(" text ")" ; else text
+    for g in sorted(guards):
+        gb = [b_ for b_ in F.bodies.values() if b_.pkg == "rscel-to-sql" and b_.path.endswith("::" + g)]
+        if len(gb) != 1:
+            chk.bad("R20.7", "guard|%s" % g, "guard helper %s not found" % g, "")
+            continue
+        it = symex.Interp(F, TextPolicy(gb[0].path))
+        shapes = set()
+        for st, r in it.run(gb[0], [symex.U("b", gb[0].local_ty(1))]):
+            rr = symex.render(symex.deep(st, r))
+            if rr.startswith("Result::Err("):
+                continue
+            pred = [("T" if c[0] == "ne" else "F") for c in st.cond if c[0] in ("eq", "ne") and re.search(r"is_compound\(b(\.0)*\)", str(c[1]))]
+            shapes.add((tuple(pred), rr))
+        want_shapes = {(("T",), "Result::Ok(must_use(format(Arguments::new_v1(['(', ')'], [Argument::new_display(sql(b).Ok.0)]))))"), (("F",), "sql(b)")}
+        if shapes == want_shapes:
+            chk.ok("R20.7", "guard|%s" % g, "compound -> (text), otherwise text")
+        else:
+            chk.bad("R20.7", "guard|%s" % g, "the guard must parenthesise exactly the compound operands: %s" % sorted(shapes)[:3], gb[0].file)
+    # which builders print `operand operator operand` at nesting depth 0
+    def open_infix(pieces):
+        depth = 0
+        for k_, pc in enumerate(pieces):
+            for ch in pc:
+                if ch in OPEN:
+                    depth += 1
+                elif ch in CLOSE:
+                    depth -= 1
+            if 0 < k_ + 1 < len(pieces) and depth == 0 and pieces[0][:1] in tuple(OPEN):
+                return True      # begins with a delimited operand, and text continues outside every delimiter
+        return False
+    for bname, forms in sorted(texts.items()):
+        comp_bodies = [b_ for b_ in F.bodies.values() if b_.pkg == "rscel-to-sql" and b_.path.endswith("<rscel_to_sql::traits::%s as rscel_to_sql::traits::SqlBuilder>::is_compound" % bname)]
+        declared = None
+        if comp_bodies:
+            it = symex.Interp(F, semtables.LogicPolicy())
+            vals = set(symex.render(r) for _, r in it.run(comp_bodies[0], [symex.U("s", comp_bodies[0].local_ty(1))]))
+            declared = vals == {"1"}
+        needs = any(pc is not None and open_infix(pc) for pc, _ in forms)
+        if needs and not declared:
+            if guards:
+                chk.bad("R20.7", "compound|%s" % bname, "%s prints `(operand) operator ...` with no delimiter of its own but does not declare itself compound: a postfix after it regroups" % bname, "extensions/to_sql/src/traits.rs")
+            # without any guard the slot violations above already describe the defect
+        elif needs:
+            chk.ok("R20.7", "compound|%s" % bname)
+        elif declared:
+            chk.ok("R20.7", "compound|%s" % bname, "declared compound (conservative)")
+    chk.floor("R20.7", "builders analysed", len(texts), 14)
     return chk.finish(
         "Must-call rule for literal escaping, sibling agreement of the two call-argument arms, panic census of the translator, impl coverage. "
-        "Decides those clauses only; does not re-parse SQL or compare operator trees.",
+        "Translation tables (node -> builder, builder -> text) extracted by symbolic execution and compared with the operator / operand / grouping rules. Does not re-parse SQL.",
         ["rustc MIR + resolved callees", "PostgreSQL standard_conforming_strings quoting (doubling ')"], ["default features"],
-        technique="must-call + sibling-count rules over resolved MIR callees")
+        technique="symbolic-execution translation tables (node -> builder -> text) + must-call / sibling rules over resolved MIR callees")
